@@ -181,6 +181,59 @@ Proof.
     + intros m Hm. destruct (Hns m (or_intror Hm)) as [A B]. split; [exact A|]. intros [E|E]; [subst; contradiction|contradiction].
     + exists P2. rewrite <- app_assoc. exact H2.
 Qed.
+
+(** ... for an ARBITRARY node list (duplicates, ids that are not nodes, ids of hydrogens created on the way): such entries
+    leave the state alone *)
+Lemma cval_upd a : cval (upd a) <= 0.
+Proof.
+  unfold upd. destruct (Z.ltb_spec 0 (cval a)); [|assumption]. unfold cval, dec_h. simpl. lia.
+Qed.
+Lemma hexp_step_skip G mx P done n :
+  EInv G mx P -> lab_ok G done -> cnt_ok P done -> (~ In n ids \/ In n done) ->
+  hexp_step (G, mx) n = (G, mx) /\ lab_ok G (n :: done) /\ cnt_ok P (n :: done).
+Proof.
+  intros I HL HC Hcase.
+  destruct (in_dec N.eq_dec n ids) as [Hn|Hn].
+  - destruct Hcase as [Hc|Hd]; [contradiction|]. apply mem_spec in Hd.
+    assert (exists a, label g n = Some a) as [a La] by (apply has_node_label, has_node_in; exact Hn).
+    pose proof (HL n Hn) as Ln. rewrite Hd, La in Ln. simpl in Ln. split; [|split].
+    + unfold hexp_step. rewrite Ln. fold (cval (upd a)). pose proof (cval_upd a). destruct (Z.leb_spec (cval (upd a)) 0); [reflexivity|lia].
+    + intros m Hm. rewrite (HL m Hm). simpl. destruct (N.eqb_spec m n) as [->|]; [rewrite Hd|]; reflexivity.
+    + intros m b Lb. rewrite (HC m b Lb). simpl. destruct (N.eqb_spec m n) as [->|]; [rewrite Hd|]; reflexivity.
+  - split; [|split].
+    + unfold hexp_step. destruct (label G n) as [a|] eqn:L; [|reflexivity].
+      assert (In n (map fst P)) as HP.
+      { assert (In n (node_ids G)) as HG by (apply has_node_in, has_node_label; eauto).
+        rewrite (ei_ids _ _ _ I) in HG. apply in_app_iff in HG. tauto. }
+      apply in_map_iff in HP. destruct HP as ([h m] & E & Hin). simpl in E. subst h.
+      destruct (ei_h _ _ _ I n m Hin) as [LH _]. rewrite LH in L. injection L as <-. reflexivity.
+    + intros m Hm. rewrite (HL m Hm). simpl. destruct (N.eqb_spec m n) as [->|]; [contradiction|reflexivity].
+    + intros m b Lb. rewrite (HC m b Lb). simpl.
+      destruct (N.eqb_spec m n) as [->|]; [|reflexivity]. exfalso. apply Hn. apply has_node_in, has_node_label. eauto.
+Qed.
+
+Lemma hexp_step_inv_any G mx P done n :
+  EInv G mx P -> lab_ok G done -> cnt_ok P done ->
+  exists P', let st := hexp_step (G, mx) n in
+    EInv (fst st) (snd st) P' /\ lab_ok (fst st) (n :: done) /\ cnt_ok P' (n :: done).
+Proof.
+  intros I HL HC. destruct (in_dec N.eq_dec n ids) as [Hn|Hn]; [destruct (in_dec N.eq_dec n done) as [Hd|Hd]|].
+  - destruct (hexp_step_skip G mx P done n I HL HC (or_intror Hd)) as (E & L & C). exists P. rewrite E. auto.
+  - apply (hexp_step_inv G mx P done n I HL HC Hn Hd).
+  - destruct (hexp_step_skip G mx P done n I HL HC (or_introl Hn)) as (E & L & C). exists P. rewrite E. auto.
+Qed.
+
+Lemma hexp_fold_inv_any ns : forall G mx P done,
+  EInv G mx P -> lab_ok G done -> cnt_ok P done ->
+  exists P', let st := fold_left hexp_step ns (G, mx) in
+    EInv (fst st) (snd st) P' /\ lab_ok (fst st) (rev ns ++ done) /\ cnt_ok P' (rev ns ++ done).
+Proof.
+  induction ns as [|n r IH]; intros G mx P done I HL HC; cbn [fold_left rev app].
+  - exists P. auto.
+  - destruct (hexp_step_inv_any G mx P done n I HL HC) as (P1 & I1 & L1 & C1). cbv zeta in *.
+    destruct (hexp_step (G, mx) n) as [G1 mx1]. simpl in *.
+    destruct (IH G1 mx1 P1 (n :: done) I1 L1 C1) as (P2 & H2). exists P2. rewrite <- app_assoc. exact H2.
+Qed.
 End Explicit.
 
 (** ** the implicit direction on the graph produced by the explicit one *)
@@ -223,6 +276,9 @@ Variable g : gr.
 Hypothesis W : gwf g.
 Hypothesis noH : forall n a, label g n = Some a -> el_is_H a = false.
 Let ids := node_ids g.
+(** what h_to_explicit left at the old nodes (hcount lowered on the atoms that were expanded, untouched elsewhere) *)
+Variable base : N -> natt -> natt.
+Hypothesis base_el : forall n a, el_is_H (base n a) = el_is_H a.
 
 Lemma adj_g_notin u v : ~ In u ids \/ ~ In v ids -> adj g u v = None.
 Proof.
@@ -233,7 +289,7 @@ Qed.
 
 Record IInv (G : gr) (Pd Pr : list (N * N)) : Prop := {
   ii_ids : node_ids G = ids ++ map fst Pr;
-  ii_lab : forall n, In n ids -> label G n = option_map (fun a => iter_inc (cnt n Pd) (upd a)) (label g n);
+  ii_lab : forall n, In n ids -> label G n = option_map (fun a => iter_inc (cnt n Pd) (base n a)) (label g n);
   ii_h : forall h m, In (h, m) Pr -> label G h = Some H_att;
   ii_adj : forall u v, adj G u v = if padj Pr u v then Some e_single else adj g u v;
   ii_uq : uniq_pairs (gedges G) = true }.
@@ -273,7 +329,7 @@ Proof.
     - intros ->. rewrite pair_eqb_refl. discriminate. }
   assert (is_H G m = false) as HmH.
   { unfold is_H. rewrite (ii_lab _ _ _ I m Hm). destruct (label g m) as [a|] eqn:La; [|reflexivity]. simpl.
-    rewrite el_iter_inc, el_upd. apply (noH m a La). }
+    rewrite el_iter_inc, base_el. apply (noH m a La). }
   split.
   { apply himp_step_single. unfold heavy_nbrs. rewrite Hn. simpl. rewrite HmH. reflexivity. }
   assert (m <> h) as Hmh by (intros ->; contradiction).
@@ -301,7 +357,7 @@ Qed.
 Lemma himp_fold_round Pr : forall G Pd, IInv G Pd Pr -> P_ok Pr ->
   let F := fold_left himp_step (map fst Pr) G in
   node_ids F = ids /\
-  (forall n, In n ids -> label F n = option_map (fun a => iter_inc (cnt n Pr + cnt n Pd) (upd a)) (label g n)) /\
+  (forall n, In n ids -> label F n = option_map (fun a => iter_inc (cnt n Pr + cnt n Pd) (base n a)) (label g n)) /\
   (forall u v, adj F u v = adj g u v).
 Proof.
   induction Pr as [|[h m] Pr IH]; intros G Pd I HP; cbn [map fold_left fst].
@@ -338,10 +394,17 @@ Proof. induction l as [|x r IH]; intros H; [reflexivity|]. simpl. rewrite H by (
 Lemma filter_none {A} (p : A -> bool) l : (forall x, In x l -> p x = false) -> filter p l = [].
 Proof. induction l as [|x r IH]; intros H; [reflexivity|]. simpl. rewrite H by (left; reflexivity). apply IH. intros y Hy. apply H. right. exact Hy. Qed.
 
-Theorem h_roundtrip (g : gr) : gwfb g = true -> no_H g = true ->
-  let g' := h_to_implicit (h_to_explicit g None false) in
+Lemma mem_rev_nil n l : mem n (rev l ++ []) = mem n l.
+Proof.
+  apply eq_true_iff_eq. rewrite !mem_spec, app_nil_r, <- in_rev. reflexivity.
+Qed.
+
+(** the general statement: any node list (a subset, a staged expansion, duplicates, ids that are not atoms) *)
+Theorem h_roundtrip_nodes (g : gr) (nodes : option (list N)) : gwfb g = true -> no_H g = true ->
+  let g' := h_to_implicit (h_to_explicit g nodes false) in
   node_ids g' = node_ids g /\
-  (forall n a, label g n = Some a -> label g' n = Some (h_restore a)) /\
+  (forall n a, label g n = Some a ->
+     label g' n = Some (if mem n (exp_nodes g nodes) then h_restore a else a)) /\
   (forall u v, adj g' u v = adj g u v).
 Proof.
   intros Hw HnoH. pose proof (gwfb_gwf g Hw) as W.
@@ -358,19 +421,20 @@ Proof.
   assert (lab_ok g (copy g) []) as L0.
   { intros n _. rewrite label_copy. destruct (label g n); reflexivity. }
   assert (cnt_ok g [] []) as C0 by (intros n a _; reflexivity).
-  destruct (hexp_fold_inv g W (node_ids g) (copy g) (max_id g) [] [] I0 L0 C0 (gwf_nd g W)) as (P & IE & LE & CE).
-  { intros n Hn. split; [exact Hn|intros []]. }
-  cbv zeta in IE, LE, CE. intros g'. unfold g', h_to_explicit. cbv iota.
-  set (E := fst (fold_left hexp_step (node_ids g) (copy g, max_id g))) in *.
-  assert (forall n, In n (node_ids g) -> mem n (rev (node_ids g) ++ []) = true) as Hmem.
-  { intros n Hn. apply mem_spec. rewrite app_nil_r. apply in_rev in Hn. exact Hn. }
+  set (ns := exp_nodes g nodes).
+  destruct (hexp_fold_inv_any g W ns (copy g) (max_id g) [] [] I0 L0 C0) as (P & IE & LE & CE).
+  cbv zeta in IE, LE, CE. intros g'. unfold g'. rewrite h_to_explicit_false. fold ns.
+  set (E := fst (fold_left hexp_step ns (copy g, max_id g))) in *.
+  set (base := fun (n : N) (a : natt) => if mem n (rev ns ++ []) then upd a else a).
+  assert (forall n a, el_is_H (base n a) = el_is_H a) as base_el.
+  { intros n a. unfold base. destruct (mem n _); [apply el_upd|reflexivity]. }
   assert (P_ok g P) as HP.
   { split; [exact (ei_nd _ _ _ _ IE)|]. intros h m Hin. split; [|apply (ei_h _ _ _ _ IE h m Hin)].
     intros Hh. apply (bounded_max_id g) in Hh. pose proof (ei_rng _ _ _ _ IE h (in_map fst _ _ Hin)) as R. simpl in R. lia. }
-  assert (IInv g (copy E) [] P) as II.
+  assert (IInv g base (copy E) [] P) as II.
   { split.
     - exact (ei_ids _ _ _ _ IE).
-    - intros n Hn. rewrite label_copy, (LE n Hn), (Hmem n Hn). destruct (label g n); reflexivity.
+    - intros n Hn. rewrite label_copy, (LE n Hn). destruct (label g n); reflexivity.
     - intros h m Hin. rewrite label_copy. apply (ei_h _ _ _ _ IE h m Hin).
     - intros u v. rewrite adj_copy by exact (ei_wf _ _ _ _ IE). apply (ei_adj _ _ _ _ IE).
     - apply (gwf_uq _ (gwf_copy E (ei_wf _ _ _ _ IE))). }
@@ -380,13 +444,24 @@ Proof.
     - intros h Hh. apply in_map_iff in Hh. destruct Hh as ([h' m] & <- & Hin). simpl fst. unfold is_H. rewrite label_copy.
       rewrite (proj1 (ei_h _ _ _ _ IE h' m Hin)). reflexivity.
     - intros n Hn. unfold is_H. rewrite label_copy, (LE n Hn). destruct (label g n) as [a|] eqn:La; [|reflexivity]. simpl.
-      rewrite (Hmem n Hn), el_upd. apply (noH n a La). }
+      fold (base n a). rewrite base_el. apply (noH n a La). }
   unfold h_to_implicit. cbv zeta. rewrite Hhs.
-  destruct (himp_fold_round g W noH P (copy E) [] II HP) as (A & B & C). cbv zeta in A, B, C.
+  destruct (himp_fold_round g W noH base base_el P (copy E) [] II HP) as (A & B & C). cbv zeta in A, B, C.
   split; [exact A|split; [|exact C]].
   intros n a La. assert (In n (node_ids g)) as Hn by (apply has_node_in, has_node_label; eauto).
-  rewrite (B n Hn), La. simpl. rewrite Nat.add_0_r.
-  rewrite (CE n a La), (Hmem n Hn). rewrite iter_upd. reflexivity.
+  rewrite (B n Hn), La. simpl. rewrite Nat.add_0_r, (CE n a La). unfold base. rewrite mem_rev_nil.
+  destruct (mem n ns); [rewrite iter_upd|]; reflexivity.
+Qed.
+
+Theorem h_roundtrip (g : gr) : gwfb g = true -> no_H g = true ->
+  let g' := h_to_implicit (h_to_explicit g None false) in
+  node_ids g' = node_ids g /\
+  (forall n a, label g n = Some a -> label g' n = Some (h_restore a)) /\
+  (forall u v, adj g' u v = adj g u v).
+Proof.
+  intros Hw Hh. destruct (h_roundtrip_nodes g None Hw Hh) as (A & B & C). cbv zeta in *. split; [exact A|split; [|exact C]].
+  intros n a La. rewrite (B n a La). simpl.
+  assert (mem n (node_ids g) = true) as -> by (apply mem_spec, has_node_in, has_node_label; eauto). reflexivity.
 Qed.
 
 (** molecule graphs (no typesGH): every node dictionary is restored exactly *)
@@ -403,12 +478,12 @@ Proof.
 Qed.
 
 (** the explicit direction keeps the heavy skeleton, for every networkx graph (explicit hydrogens allowed) *)
-Theorem h_explicit_skeleton (g : gr) : gwfb g = true ->
-  let E := h_to_explicit g None false in
-  (forall n a, label g n = Some a -> label E n = Some (h_lowered a)) /\
+Theorem h_explicit_skeleton_nodes (g : gr) (nodes : option (list N)) : gwfb g = true ->
+  let E := h_to_explicit g nodes false in
+  (forall n a, label g n = Some a -> label E n = Some (if mem n (exp_nodes g nodes) then h_lowered a else a)) /\
   (forall u v, In u (node_ids g) -> In v (node_ids g) -> adj E u v = adj g u v) /\
   (forall h, In h (node_ids E) -> ~ In h (node_ids g) ->
-     label E h = Some H_att /\
+     (max_id g < h)%N /\ label E h = Some H_att /\
      exists m, In m (node_ids g) /\ forall w, adj E h w = if N.eqb w m then Some e_single else None).
 Proof.
   intros Hw. pose proof (gwfb_gwf g Hw) as W.
@@ -422,29 +497,42 @@ Proof.
   assert (lab_ok g (copy g) []) as L0.
   { intros n _. rewrite label_copy. destruct (label g n); reflexivity. }
   assert (cnt_ok g [] []) as C0 by (intros n a _; reflexivity).
-  destruct (hexp_fold_inv g W (node_ids g) (copy g) (max_id g) [] [] I0 L0 C0 (gwf_nd g W)) as (P & IE & LE & _).
-  { intros n Hn. split; [exact Hn|intros []]. }
-  cbv zeta in IE, LE. intros E. unfold E, h_to_explicit. cbv iota.
-  set (E' := fst (fold_left hexp_step (node_ids g) (copy g, max_id g))) in *.
+  set (ns := exp_nodes g nodes).
+  destruct (hexp_fold_inv_any g W ns (copy g) (max_id g) [] [] I0 L0 C0) as (P & IE & LE & _).
+  cbv zeta in IE, LE. intros E. unfold E. rewrite h_to_explicit_false. fold ns.
+  set (E' := fst (fold_left hexp_step ns (copy g, max_id g))) in *.
   assert (P_ok g P) as HP.
   { split; [exact (ei_nd _ _ _ _ IE)|]. intros h m Hin. split; [|apply (ei_h _ _ _ _ IE h m Hin)].
     intros Hh. apply (bounded_max_id g) in Hh. pose proof (ei_rng _ _ _ _ IE h (in_map fst _ _ Hin)) as R. simpl in R. lia. }
   split; [|split].
   - intros n a La. assert (In n (node_ids g)) as Hn by (apply has_node_in, has_node_label; eauto).
-    rewrite (LE n Hn), La. simpl.
-    assert (mem n (rev (node_ids g) ++ []) = true) as -> by (apply mem_spec; rewrite app_nil_r; apply in_rev in Hn; exact Hn).
-    reflexivity.
+    rewrite (LE n Hn), La. simpl. rewrite mem_rev_nil. reflexivity.
   - intros u v Hu Hv. rewrite (ei_adj _ _ _ _ IE). destruct (padj P u v) eqn:E1; [|reflexivity]. exfalso.
     unfold padj in E1. apply existsb_exists in E1. destruct E1 as ([h m] & Hin & Pq). simpl in Pq.
     destruct (proj2 HP h m Hin) as [Hh _]. apply pair_eqb_spec in Pq. destruct Pq as [[-> _]|[-> _]]; contradiction.
   - intros h Hh Hnot. rewrite (ei_ids _ _ _ _ IE) in Hh. apply in_app_iff in Hh. destruct Hh as [Hh|Hh]; [contradiction|].
+    pose proof (ei_rng _ _ _ _ IE h Hh) as R.
     apply in_map_iff in Hh. destruct Hh as ([h' m] & <- & Hin). simpl fst in *.
-    destruct (ei_h _ _ _ _ IE h' m Hin) as [L M]. split; [exact L|]. exists m. split; [exact M|].
+    destruct (ei_h _ _ _ _ IE h' m Hin) as [L M]. split; [apply R|]. split; [exact L|]. exists m. split; [exact M|].
     intros w. rewrite (ei_adj _ _ _ _ IE). rewrite (adj_g_notin g W h' w) by (left; exact Hnot).
     destruct (N.eqb_spec w m) as [->|Hne].
     + assert (padj P h' m = true) as ->; [|reflexivity]. unfold padj. apply existsb_exists. exists (h', m). split; [exact Hin|apply pair_eqb_refl].
     + destruct (padj P h' w) eqn:E1; [|reflexivity]. exfalso. apply Hne.
       apply (NoDup_fst_inj P h' w m (proj1 HP)); [|exact Hin]. apply (padj_with_h g P h' w HP Hnot E1).
+Qed.
+
+Theorem h_explicit_skeleton (g : gr) : gwfb g = true ->
+  let E := h_to_explicit g None false in
+  (forall n a, label g n = Some a -> label E n = Some (h_lowered a)) /\
+  (forall u v, In u (node_ids g) -> In v (node_ids g) -> adj E u v = adj g u v) /\
+  (forall h, In h (node_ids E) -> ~ In h (node_ids g) ->
+     label E h = Some H_att /\
+     exists m, In m (node_ids g) /\ forall w, adj E h w = if N.eqb w m then Some e_single else None).
+Proof.
+  intros Hw. destruct (h_explicit_skeleton_nodes g None Hw) as (A & B & C). cbv zeta in *. split; [|split; [exact B|]].
+  - intros n a La. rewrite (A n a La). simpl.
+    assert (mem n (node_ids g) = true) as -> by (apply mem_spec, has_node_in, has_node_label; eauto). reflexivity.
+  - intros h H1 H2. destruct (C h H1 H2) as (_ & L & M). auto.
 Qed.
 
 (** ** non-vacuity, and the case outside the domain *)
@@ -564,4 +652,14 @@ Qed.
 
 Example h_total_implicit_wf_ex :
   gwfb ex_ch4_partial = true /\ h_dom ex_ch4_partial = true /\ total_h (h_to_implicit ex_ch4_partial) = 4.
+Proof. vm_compute. repeat split. Qed.
+
+(** staged use: only atom 1 of CH3-NH2 is expanded; the three new hydrogens are numbered 3, 4, 5 — above EVERY id of
+    the graph, not above the ids of the selected atoms — and folding them back restores the graph *)
+Example h_roundtrip_nodes_ex :
+  node_ids (h_to_explicit ex_methylamine (Some [1%N]) false) = [1; 2; 3; 4; 5]%N /\
+  option_map a_hc (label (h_to_explicit ex_methylamine (Some [1%N]) false) 2%N) = Some (Some 2) /\
+  gnodes (h_to_implicit (h_to_explicit ex_methylamine (Some [1%N]) false)) = gnodes ex_methylamine /\
+  gnodes (h_to_implicit (h_to_explicit (h_to_explicit ex_methylamine (Some [1%N]) false) (Some [2%N]) false))
+  = gnodes ex_methylamine.
 Proof. vm_compute. repeat split. Qed.
